@@ -174,14 +174,21 @@ Proof. now destruct nm. Qed.
 
 Lemma m_readdir_eq s i h n cnt :
   get_node s (href h) = Some n -> ndir n = true -> 0 <= hrdc h ->
-  let M := skipn (Z.to_nat (hrdc h)) (dir_infos s n) in
+  let c := Nat.min (Z.to_nat (hrdc h)) (length (dir_infos s n)) in     (* the offset, clamped to the listing *)
+  let M := skipn c (dir_infos s n) in
   let po := page_out (length M) cnt in
   m_readdir s i h cnt =
-    (set_handle s i (set_rdc h (hrdc h + Z.of_nat po)), firstn po M,
+    (set_handle s i (set_rdc h (Z.of_nat c + Z.of_nat po)), firstn po M,
      if (0 <? cnt) && (Nat.eqb (length M) 0) then Some (E KEOF) else None).
 Proof.
-  intros Hn Hd Hc M po. unfold m_readdir. rewrite Hn, Hd. cbn [negb].
-  set (files := skipn (Z.to_nat (hrdc h)) (dir_files s n)).
+  intros Hn Hd Hc c M po. unfold m_readdir. rewrite Hn, Hd. cbn [negb].
+  set (all := dir_files s n).
+  assert (Hla : length all = length (dir_infos s n)) by (unfold dir_infos; now rewrite map_length).
+  set (rdc := if zlen all <? hrdc h then zlen all else hrdc h).
+  assert (Hrdc : rdc = Z.of_nat c).
+  { unfold rdc, c, zlen. rewrite <- Hla. destruct (Z.of_nat (length all) <? hrdc h) eqn:E; [apply Z.ltb_lt in E | apply Z.ltb_ge in E]; lia. }
+  rewrite Hrdc, Nat2Z.id.
+  set (files := skipn c all).
   assert (Hlen : length files = length M).
   { unfold files, M, dir_infos. now rewrite !skipn_length, map_length. }
   assert (Hz : zlen files = Z.of_nat (length M)) by (unfold zlen; now rewrite Hlen).
@@ -197,30 +204,35 @@ Qed.
 
 Lemma readdir_page_raw s i h n cnt nm :
   nth_error (mhandles s) i = Some h -> get_node s (href h) = Some n -> ndir n = true -> 0 <= hrdc h ->
-  let M := skipn (Z.to_nat (hrdc h)) (dir_infos s n) in
+  let c := Nat.min (Z.to_nat (hrdc h)) (length (dir_infos s n)) in
+  let M := skipn c (dir_infos s n) in
   let po := page_out (length M) cnt in
   m_step_raw s (rdop nm i cnt) =
-    (set_handle s i (set_rdc h (hrdc h + Z.of_nat po)),
+    (set_handle s i (set_rdc h (Z.of_nat c + Z.of_nat po)),
      page_res nm (firstn po M) (if (0 <? cnt) && (Nat.eqb (length M) 0) then Some (E KEOF) else None)).
 Proof.
-  intros Hh Hn Hd Hc M po.
-  pose proof (m_readdir_eq s i h n cnt Hn Hd Hc) as E. cbv zeta in E. fold M in E. fold po in E.
+  intros Hh Hn Hd Hc c M po.
+  pose proof (m_readdir_eq s i h n cnt Hn Hd Hc) as E. cbv zeta in E. fold c in E. fold M in E. fold po in E.
   assert (Hnil : (0 <? cnt) && Nat.eqb (length M) 0 = true -> firstn po M = []).
   { intros Ht. apply andb_true_iff in Ht as [_ Ht]. apply Nat.eqb_eq in Ht. destruct M; [now rewrite firstn_nil | discriminate]. }
   destruct nm; cbn [rdop m_step_raw]; unfold m_hop; rewrite Hh, Hn, E;
     destruct ((0 <? cnt) && Nat.eqb (length M) 0) eqn:Ee; try reflexivity; rewrite (Hnil eq_refl); reflexivity.
 Qed.
 
+(* the offset of the handle lies within the listing: no entry was removed since the previous page *)
+Definition rdc_within (s : mst) (h : hnd) (n : node) : Prop := (Z.to_nat (hrdc h) <= length (dir_infos s n))%nat.
+
 Lemma readdir_page s i h n cnt nm :
-  nth_error (mhandles s) i = Some h -> get_node s (href h) = Some n -> ndir n = true -> 0 <= hrdc h ->
+  nth_error (mhandles s) i = Some h -> get_node s (href h) = Some n -> ndir n = true -> 0 <= hrdc h -> rdc_within s h n ->
   let M := skipn (Z.to_nat (hrdc h)) (dir_infos s n) in
   let po := page_out (length M) cnt in
   m_step s (rdop nm i cnt) =
     (mkM (mdata s) (mheap s) (list_set i (set_rdc h (hrdc h + Z.of_nat po)) (mhandles s)) (mclock s + 1),
      page_res nm (firstn po M) (if (0 <? cnt) && (Nat.eqb (length M) 0) then Some (E KEOF) else None)).
 Proof.
-  intros Hh Hn Hd Hc M po. unfold m_step.
-  rewrite (readdir_page_raw s i h n cnt nm Hh Hn Hd Hc). reflexivity.
+  intros Hh Hn Hd Hc Hle M po. unfold m_step.
+  rewrite (readdir_page_raw s i h n cnt nm Hh Hn Hd Hc). cbv zeta. unfold rdc_within in Hle.
+  rewrite Nat.min_l by exact Hle. rewrite Z2Nat.id by exact Hc. reflexivity.
 Qed.
 
 (* two strictly ascending lists with the same elements are equal *)
@@ -271,7 +283,7 @@ Qed.
 Definition zsum (ns : list Z) : Z := fold_right Z.add 0 ns.
 
 Theorem readdir_pages nm : forall ns s i h n,
-  nth_error (mhandles s) i = Some h -> get_node s (href h) = Some n -> ndir n = true -> 0 <= hrdc h ->
+  nth_error (mhandles s) i = Some h -> get_node s (href h) = Some n -> ndir n = true -> 0 <= hrdc h -> rdc_within s h n ->
   Forall (fun c => 0 < c) ns ->
   let M := skipn (Z.to_nat (hrdc h)) (dir_infos s n) in
   let s' := fst (run_steps m_step s (map (rdop nm i) ns)) in
@@ -280,10 +292,10 @@ Theorem readdir_pages nm : forall ns s i h n,
   exists h', nth_error (mhandles s') i = Some h' /\ href h' = href h /\
              hrdc h' = hrdc h + Z.of_nat (Nat.min (length M) (Z.to_nat (zsum ns))).
 Proof.
-  induction ns as [|c ns IH]; intros s i h n Hh Hn Hd Hc Hpos M s'.
+  induction ns as [|c ns IH]; intros s i h n Hh Hn Hd Hc Hle Hpos M s'.
   - cbn. split; [reflexivity|]. split; [reflexivity|]. exists h. rewrite Nat.min_0_r, Z.add_0_r. auto.
   - inversion Hpos as [|? ? Hc0 Hpos']; subst.
-    pose proof (readdir_page s i h n c nm Hh Hn Hd Hc) as Hstep. cbv zeta in Hstep. fold M in Hstep.
+    pose proof (readdir_page s i h n c nm Hh Hn Hd Hc Hle) as Hstep. cbv zeta in Hstep. fold M in Hstep.
     set (po := page_out (length M) c) in *.
     set (h1 := set_rdc h (hrdc h + Z.of_nat po)) in *.
     set (s1 := mkM (mdata s) (mheap s) (list_set i h1 (mhandles s)) (mclock s + 1)) in *.
@@ -291,9 +303,12 @@ Proof.
     { unfold s1. cbn [mhandles]. apply nth_list_set_same. apply nth_error_Some. congruence. }
     assert (Hn1 : get_node s1 (href h1) = Some n) by exact Hn.
     assert (Hc1 : 0 <= hrdc h1) by (unfold h1; cbn; lia).
-    destruct (IH s1 i h1 n Hh1 Hn1 Hd Hc1 Hpos') as (Hcat & Hview & h' & Hh' & Hr' & Hrdc').
     assert (Hpo : po = Nat.min (length M) (Z.to_nat c)).
     { unfold po, page_out. assert (E : 0 <? c = true) by now apply Z.ltb_lt. now rewrite E. }
+    assert (Hle1 : rdc_within s1 h1 n).
+    { unfold rdc_within in *. change (dir_infos s1 n) with (dir_infos s n). unfold h1. cbn [hrdc set_rdc].
+      rewrite Z2Nat.inj_add, Nat2Z.id by lia. rewrite Hpo. unfold M. rewrite skipn_length. lia. }
+    destruct (IH s1 i h1 n Hh1 Hn1 Hd Hc1 Hle1 Hpos') as (Hcat & Hview & h' & Hh' & Hr' & Hrdc').
     assert (HM1 : skipn (Z.to_nat (hrdc h1)) (dir_infos s1 n) = skipn po M).
     { unfold h1. cbn [hrdc set_rdc]. unfold M. rewrite Z2Nat.inj_add by lia. rewrite Nat2Z.id. apply skipn_add. }
     rewrite HM1 in Hcat, Hrdc'.
@@ -311,7 +326,7 @@ Qed.
 
 (* after the whole listing has been consumed, the next page reports EOF *)
 Theorem readdir_then_eof nm ns s i h n cnt :
-  nth_error (mhandles s) i = Some h -> get_node s (href h) = Some n -> ndir n = true -> 0 <= hrdc h ->
+  nth_error (mhandles s) i = Some h -> get_node s (href h) = Some n -> ndir n = true -> 0 <= hrdc h -> rdc_within s h n ->
   Forall (fun c => 0 < c) ns -> 0 < cnt ->
   let M := skipn (Z.to_nat (hrdc h)) (dir_infos s n) in
   (length M <= Z.to_nat (zsum ns))%nat ->
@@ -319,15 +334,18 @@ Theorem readdir_then_eof nm ns s i h n cnt :
   concat (map names_of (snd (run_steps m_step s (map (rdop nm i) ns)))) = map fi_name M /\
   snd (m_step s' (rdop nm i cnt)) = page_res nm [] (Some (E KEOF)).
 Proof.
-  intros Hh Hn Hd Hc Hpos Hcnt M Hall s'.
-  destruct (readdir_pages nm ns s i h n Hh Hn Hd Hc Hpos) as (Hcat & Hview & h' & Hh' & Hr' & Hrdc'). fold M in Hcat, Hrdc'. fold s' in Hview, Hh'.
+  intros Hh Hn Hd Hc Hle Hpos Hcnt M Hall s'.
+  destruct (readdir_pages nm ns s i h n Hh Hn Hd Hc Hle Hpos) as (Hcat & Hview & h' & Hh' & Hr' & Hrdc'). fold M in Hcat, Hrdc'. fold s' in Hview, Hh'.
   split; [rewrite Hcat; now rewrite firstn_all2|].
   assert (Hheap : mheap s' = mheap s) by (unfold fs_view in Hview; now inversion Hview).
   assert (Hn' : get_node s' (href h') = Some n) by (unfold get_node; now rewrite Hheap, Hr').
   assert (Hc' : 0 <= hrdc h') by lia.
-  rewrite (readdir_page s' i h' n cnt nm Hh' Hn' Hd Hc'). cbn [snd].
   assert (Hdi : dir_infos s' n = dir_infos s n).
   { unfold dir_infos, dir_files, node_name, get_node. now rewrite Hheap. }
+  assert (Hle' : rdc_within s' h' n).
+  { unfold rdc_within in *. rewrite Hdi, Hrdc', Nat.min_l by exact Hall. unfold M. rewrite skipn_length.
+    rewrite Z2Nat.inj_add, Nat2Z.id by lia. lia. }
+  rewrite (readdir_page s' i h' n cnt nm Hh' Hn' Hd Hc' Hle'). cbn [snd].
   assert (Hempty : skipn (Z.to_nat (hrdc h')) (dir_infos s' n) = []).
   { rewrite Hdi. apply skipn_all2. rewrite Hrdc', Nat.min_l by exact Hall. unfold M. rewrite skipn_length.
     rewrite Z2Nat.inj_add, Nat2Z.id by lia. lia. }
@@ -352,7 +370,7 @@ Proof.
   split; [|now apply (listing_is_children s d r n)].
   assert (Hh : nth_error (mhandles s2) h = Some (mkH r 0 0 false true)).
   { unfold s2, h. cbn [mhandles]. rewrite nth_error_app2, Nat.sub_diag by lia. reflexivity. }
-  rewrite (readdir_page s2 h (mkH r 0 0 false true) n (-1) nm Hh Hn Hdir); [|cbn; lia].
+  rewrite (readdir_page s2 h (mkH r 0 0 false true) n (-1) nm Hh Hn Hdir); [|cbn; lia | unfold rdc_within; cbn; lia].
   cbn [snd hrdc Z.to_nat skipn Z.ltb Z.compare andb]. unfold page_out. cbn [Z.ltb Z.compare].
   rewrite firstn_all. reflexivity.
 Qed.
@@ -383,6 +401,7 @@ Theorem pages_partition nm ns s i h n cnt :
 Proof.
   intros Hh Hn Hd Hc Hpos Hcnt Hall run.
   assert (Hc' : 0 <= hrdc h) by lia.
-  pose proof (readdir_then_eof nm ns s i h n cnt Hh Hn Hd Hc' Hpos Hcnt) as H. cbv zeta in H.
+  assert (Hle : rdc_within s h n) by (unfold rdc_within; rewrite Hc; cbn; lia).
+  pose proof (readdir_then_eof nm ns s i h n cnt Hh Hn Hd Hc' Hle Hpos Hcnt) as H. cbv zeta in H.
   rewrite Hc in H. cbn [Z.to_nat skipn] in H. apply H. unfold dir_names in Hall. now rewrite map_length in Hall.
 Qed.
